@@ -301,7 +301,7 @@ func checkCmd(id, tier string) int {
 
 	fmt.Printf("simcheck: %d runs (%d distinct non-trivial) in %.1fs batch / %.1fs wall; faults fired: %s\n", m.Evaluations, len(m.distinct), batchSeconds, wall, renderCounts(m.Faults))
 	for _, f := range knownList {
-		key := f.Signature + "|" + f.Input
+		key := f.Signature + f.SignatureRegex + "|" + f.Input + f.InputRegex
 		fmt.Printf("KNOWN-FINDING: property=%s %s (signature %s, hit %d times in this batch)\n", id, f.What, f.Signature, m.Known[key])
 	}
 	for _, r := range reported {
